@@ -596,6 +596,19 @@ def poly(t):
                 k = tuple(sorted(ka + kb, key=repr))
                 out[k] = out.get(k, 0) + va * vb
         return {k: v for k, v in out.items() if v}
+    if t[0] == "op" and t[1] == "<<" and t[3][0] == "const" and 0 <= t[3][1] < 64:
+        return {k: v << t[3][1] for k, v in poly(t[2]).items()}          # x << k  is  x * 2^k (modulo the width, like *)
+    if t[0] == "op" and t[1] == "|":
+        # a | b with a a multiple of 2^k and b = (anything & m), 0 <= m < 2^k: no bit in common, so a | b is a + b
+        for a, b in ((t[2], t[3]), (t[3], t[2])):
+            if b[0] == "op" and b[1] == "&" and (b[3][0] == "const" or b[2][0] == "const"):
+                m = b[3][1] if b[3][0] == "const" else b[2][1]
+                pa = poly(a)
+                if m >= 0 and pa and all(v % (1 << m.bit_length()) == 0 for v in pa.values()):
+                    out = dict(pa)
+                    for k, v in poly(b).items():
+                        out[k] = out.get(k, 0) + v
+                    return {k: v for k, v in out.items() if v}
     return {(t,): 1}
 
 
